@@ -16,11 +16,16 @@ def run(tier, seed):
         ck.note("bind.tags34.run_c03 not available: Type 3 / Type 4 part not run")
     if fn is not None:
         fn(ck, tier, seed)
+    from bind import c03_vendor                   # vendor classes: NTAG / Ultralight / FeliCa Lite / Topaz format(), protect()
+    c03_vendor.stage(ck, tier, seed)
     return ck.finish()
 
 
 def replay(rep, args):
     r = rep.get("replay") or {}
+    if r.get("kind") in ("vendor-nxp", "vendor-fmt"):
+        from bind import c03_vendor
+        return c03_vendor.replay(rep, args)
     if r.get("kind") == "tags12":
         from bind import tags12
         return tags12.replay(rep, args)
